@@ -113,7 +113,9 @@ def gen_pairs(rng, big=False):
     return n_p, n_s, [pp[i] for i, _ in prs], [ps[j] for _, j in prs], style
 
 
-NAMES = [("A", "B"), ("MHS", "AVHRR"), ("primary", "secondary"), ("b", "a"), ("Sat_1", "Sat_2")]
+# group names: also pairs in which one name is a prefix of the other, in both orders (a lookup by name prefix mixes them up)
+NAMES = [("A", "B"), ("MHS", "AVHRR"), ("primary", "secondary"), ("b", "a"), ("Sat_1", "Sat_2"),
+         ("MHS", "MHS_N18"), ("AMSUB", "AMSU"), ("S", "Sat"), ("Sat_10", "Sat_1")]
 
 
 def gen_layout(rng):
@@ -782,7 +784,7 @@ def run(ctx):
         styles[x["style"]] = styles.get(x["style"], 0) + 1
     ctx.cov["input_distribution"] = {
         "datasets": n_ds, "datasets_with_1000+_pairs": n_big, "concat_cases": n_cc, "collocate_cases": n_col,
-        "styles": styles, "numba_available": bool(cm._has_numba),
+        "styles": styles, "numba_available": bool(getattr(cm, "_has_numba", False)),
         "row_assignment_variant_exercised": "numba" if cm._has_numba else "pure Python (also for >= 1000 pairs)",
         "pairs_per_dataset": {"min": min(len(x["pairs"][0]) for x in ds_cases + big_cases),
                               "max": max(len(x["pairs"][0]) for x in ds_cases + big_cases)},
